@@ -71,6 +71,9 @@ pub fn gen_keys(rng: &mut Rng, n: usize, subdirs: bool) -> Vec<String> {
         } else if rng.chance(1, 16) {
             // a word, a colon, a space ("Re: budget", "TODO: x"): looks like an address with a scheme and is the name of a note
             format!("Re: n{}", i + 1)
+        } else if rng.chance(1, 24) {
+            // a time of day in front (digits, a colon, no space): a scheme begins with a letter, so this is a note too
+            format!("10:30-n{}", i + 1)
         } else {
             format!("n{}", i + 1)
         };
@@ -133,7 +136,7 @@ fn targets_for(from: &str, keys: &[String], o: &LibOpts, rng: &mut Rng) -> (Vec<
     }
     if o.foreign {
         // (also addresses with a second colon: a port, a colon in the path, a URN)
-        for e in ["zotero://select/items/A1", "file:///home/me/scan.pdf", "/assets/handbook.pdf", "tel:+123", "ftp://host/file", "http://localhost:8080/docs", "https://en.wikipedia.org/wiki/Help:Contents", "urn:isbn:0451450523", "", "assets/", "..", "./"] {
+        for e in ["zotero://select/items/A1", "file:///home/me/scan.pdf", "/assets/handbook.pdf", "tel:+123", "ftp://host/file", "http://localhost:8080/docs", "https://en.wikipedia.org/wiki/Help:Contents", "urn:isbn:0451450523", "s3://my-bucket/notes/backup", "ed2k://server/share/file", "", "assets/", "..", "./"] {
             inline_targets.push(Target { dest: e.to_string(), external: true });
         }
         if o.inline_internal && (o.cross_dir_inline || dir.is_empty()) {
